@@ -53,6 +53,11 @@ class _OffsetParseBucket(_ParseBucket[Offset]):
         )
         if self._is_negative:
             seconds = -seconds
+        # Each field is range-checked on its own (hours up to 23), but the whole value must fit in an Offset.
+        if seconds < Offset.min_value.seconds or seconds > Offset.max_value.seconds:
+            return ParseResult[Offset]._for_invalid_value_post_parse(
+                value, _TextErrorMessages.OVERALL_VALUE_OUT_OF_RANGE, Offset.__name__
+            )
         return ParseResult[Offset].for_value(Offset.from_seconds(seconds))
 
 
